@@ -206,8 +206,11 @@ def atomic_write_octave(
             os.replace(temp_path, target_path)
 
         except Exception:
-            if os.path.exists(temp_path):
+            # Unconditional: an os.path.exists() guard leaves the temp file behind when that stat fails
+            try:
                 os.unlink(temp_path)
+            except OSError:
+                pass
             raise
 
     except Exception as e:
